@@ -71,6 +71,22 @@ macro_rules! twin {
                 for c in prog { apply(c, &mut b); }
                 match std::panic::catch_unwind(std::panic::AssertUnwindSafe(|| b.to_str(qr))) { Ok(s) => fnv64(s.bytes()), Err(_) => 1 }
             }
+            #[cfg(feature = "hooks")]
+            pub fn wasm_hashes(content: &str, prog: &[crate::scen_wasm::WCall]) -> (u64, u64) {
+                use crate::scen_wasm::WCall;
+                use $krate::wasm_host::{qr, qr_svg, SvgOptions};
+                let svg = std::panic::catch_unwind(std::panic::AssertUnwindSafe(|| {
+                    let mut o = SvgOptions::new();
+                    for c in prog { o = match c {
+                        WCall::Shape(s) => o.shape(SH[*s]), WCall::Margin(m) => o.margin(*m), WCall::Ecl(e) => o.ecl(LV[*e]), WCall::Version(v) => o.version(ver(*v)),
+                        WCall::ModuleColor(s) => o.module_color(s.clone()), WCall::BackgroundColor(s) => o.background_color(s.clone()), WCall::ImageBackgroundColor(s) => o.image_background_color(s.clone()),
+                        WCall::Image(s) => o.image(s.clone()), WCall::ImageBackgroundShape(k) => o.image_background_shape(FS[*k]), WCall::ImageSize(a, b) => o.image_size(*a, *b), WCall::ImagePosition(f) => o.image_position(f.clone()),
+                    }; }
+                    qr_svg(content, o)
+                }));
+                let m = std::panic::catch_unwind(std::panic::AssertUnwindSafe(|| qr(content)));
+                (match svg { Ok(s) => fnv64(s.bytes()), Err(_) => 1 }, match m { Ok(v) => fnv64(v.iter().cloned()), Err(_) => 1 })
+            }
             pub fn text_hash(qr: &QRCode) -> u64 { match std::panic::catch_unwind(std::panic::AssertUnwindSafe(|| qr.to_str())) { Ok(s) => fnv64(s.bytes()), Err(_) => 1 } }
             pub fn raster_hash(qr: &QRCode, prog: &[Call]) -> u64 {
                 let mut b = ImageBuilder::default();
@@ -202,4 +218,49 @@ pub fn diffrender(sink: &mut Sink, seed: u64, thorough: bool) {
     sink.emit(&svg_event(id, "diffsvg:sample", &q1, &[Call::Margin(2)]));
     let id = sink.id();
     sink.emit(&json!({"ev": "FileSkip", "id": id, "tag": format!("diffrender:summary:{}", n.min(1)), "fault": format!("{} sampled programs per thread x {} threads, {} differ from the reference build", per_thread, nthreads, n)}));
+}
+
+/// the wasm facade (host build) compared between the two crates on random (content, setter program) pairs; differing ones are judged
+#[cfg(feature = "hooks")]
+pub fn diffwasm(sink: &mut Sink, seed: u64, thorough: bool) {
+    use crate::scen_wasm::{wasm_qr_event, wasm_svg_event, WCall, BAD_COLORS, OK_COLORS};
+    let per_thread = if thorough { 40_000usize } else { 4_000 };
+    let nthreads = 14usize;
+    let (tx, rx) = std::sync::mpsc::channel::<(String, Vec<WCall>, bool)>();
+    let handles: Vec<_> = (0..nthreads).map(|t| { let tx = tx.clone(); std::thread::spawn(move || {
+        let mut r = rng(seed, 1000 + t as u64);
+        let mut found = 0usize;
+        for i in 0..per_thread {
+            let e = r.gen_range(0..4usize);
+            let class = r.gen_range(0..3usize);
+            let n = match r.gen_range(0..8) { 0..=3 => r.gen_range(0..60usize), 4 | 5 => { let v = r.gen_range(1..=40usize); (capacity(class, e, v) as i64 + r.gen_range(-1..=1i64)).max(0) as usize } 6 => (capacity(class, e, 40) as i64 + r.gen_range(-1..=1i64)) as usize, _ => r.gen_range(0..400usize) };
+            if n > 900 && i % 6 != 0 { continue; }
+            let content: String = String::from_utf8_lossy(&payload(&mut r, class, n, false)).to_string();
+            let col = |r: &mut rand::rngs::StdRng| -> String { if r.gen_range(0..4) == 0 { BAD_COLORS[r.gen_range(0..BAD_COLORS.len())].to_string() } else { OK_COLORS[r.gen_range(0..OK_COLORS.len())].to_string() } };
+            let mut prog: Vec<WCall> = vec![WCall::Ecl(e)];
+            for _ in 0..r.gen_range(0..6) { prog.push(match r.gen_range(0..11) {
+                0 => WCall::Shape(r.gen_range(0..6)), 1 => WCall::Margin([0usize, 1, 4, 9, 20, 255, 1000][r.gen_range(0..7)]), 2 => WCall::Ecl(r.gen_range(0..4)), 3 => WCall::Version(r.gen_range(1..=40)),
+                4 => WCall::ModuleColor(col(&mut r)), 5 => WCall::BackgroundColor(col(&mut r)), 6 => WCall::ImageBackgroundColor(col(&mut r)),
+                7 => WCall::Image(["logo.png", "", "a?b=1&c=caf\u{e9}", "x\"y.png"][r.gen_range(0..4)].to_string()), 8 => WCall::ImageBackgroundShape(r.gen_range(0..3)),
+                9 => WCall::ImageSize((r.gen_range(0..120) as f64) / 4.0, (r.gen_range(0..12) as f64) / 4.0),
+                _ => WCall::ImagePosition((0..[2usize, 2, 2, 0, 1, 3][r.gen_range(0..6)]).map(|_| (r.gen_range(0..160) as f64) / 4.0).collect()),
+            }); }
+            let (a, b) = (test_side::wasm_hashes(&content, &prog), ref_side::wasm_hashes(&content, &prog));
+            if a != b { let _ = tx.send((content, prog, a.0 != b.0)); found += 1; if found >= 8 { break; } }
+        }
+    }) }).collect();
+    drop(tx);
+    for h in handles { let _ = h.join(); }
+    let mut differing: Vec<(String, Vec<WCall>, bool)> = rx.try_iter().collect();
+    differing.sort_by_key(|d| d.0.len());
+    differing.truncate(if thorough { 40 } else { 20 });
+    let n = differing.len();
+    for (content, prog, svg_differs) in differing {
+        let id = sink.id();
+        if svg_differs { sink.emit(&wasm_svg_event(id, "diffwasm:svg", &content, &prog)); } else { sink.emit(&wasm_qr_event(id, "diffwasm:qr", &content)); }
+    }
+    let id = sink.id();
+    sink.emit(&wasm_svg_event(id, "diffwasm:sample", "HELLO", &[WCall::Margin(2)]));
+    let id = sink.id();
+    sink.emit(&json!({"ev": "FileSkip", "id": id, "tag": format!("diffwasm:summary:{}", n.min(1)), "fault": format!("{} sampled (content, program) pairs per thread x {} threads, {} differ from the reference build", per_thread, nthreads, n)}));
 }
